@@ -8,7 +8,8 @@
      in_loop   inside the body of a for / while / loop (a `while` condition is evaluated on every
                iteration and counts; the iterator expression of `for` is evaluated once and does not)
      in_async  inside an `async fn`
-     in_wrap   inside the arguments of a spawn_blocking / block_in_place / asyncify call
+     in_wrap   inside a spawn_blocking / block_in_place / asyncify call, written as a function or path call or as a
+               method call (tokio's Handle::spawn_blocking / Runtime::spawn_blocking)
      later     the identifiers appearing in the statements that follow the current statement in the
                enclosing block (None outside any block)
      in_let    Some l inside the initializer of a `let` (not across a nested block), l = later of the let *)
@@ -44,7 +45,10 @@ Definition attr_is_cfg_test (text : string) : bool :=
 (* an item carries every attribute written before it; comments in between do not matter *)
 Definition has_attr (p : string -> bool) (pre : list sib) : bool :=
   existsb (fun s => match s with SAttr t => p t | SComment => false end) pre.
-Definition fn_is_test (pre : list sib) : bool := has_attr attr_is_test_fn pre.
+(* a function is test code when an attribute marks it as a test (#[test], #[tokio::test]) or compiles it only
+   under cfg(test) (#[cfg(test)] fn helper()); a module when a cfg attribute implies `test` *)
+Definition attr_marks_test_fn (text : string) : bool := attr_is_test_fn text || attr_is_cfg_test text.
+Definition fn_is_test (pre : list sib) : bool := has_attr attr_marks_test_fn pre.
 Definition mod_is_test (pre : list sib) : bool := has_attr attr_is_cfg_test pre.
 
 (* ------------------------------------------------------------------ context *)
@@ -61,20 +65,29 @@ Definition spec_push (c : ctx) (k : kind) (i : nat) (rest : list node) : option 
     in_test := in_test c || match k with KMod pre => mod_is_test pre | KFn pre _ _ => fn_is_test pre | _ => false end;
     in_loop := in_loop c || match k with KLoop LFor _ => 1 <=? i | KLoop _ _ => true | _ => false end;
     in_async := in_async c || match k with KFn _ a _ => a | _ => false end;
-    in_wrap := in_wrap c || match k with KCall _ _ path => smem (last path "") wrapper_names | _ => false end;
+    in_wrap := in_wrap c || match k with
+                            | KCall _ _ path => smem (last path "") wrapper_names     (* spawn_blocking(..), tokio::task::spawn_blocking(..) *)
+                            | KMethod _ _ _ name => smem name wrapper_names          (* handle.spawn_blocking(..), rt.spawn_blocking(..) *)
+                            | _ => false
+                            end;
     later := if stmt_pos k i then Some (flat_map (idents false) rest) else later c;
     in_let := if stmt_pos k i then None else match k with KLet _ => later c | _ => in_let c end |}.
 
 (* ------------------------------------------------------------------ unwrap-abuse *)
+(* the quoted source line of a message: the text of the row, without surrounding whitespace *)
+Definition quoted (ls : srclines) (row : nat) : string := strip (line_at ls row).
+
 (* every .unwrap(), and every .expect() unless allow_expect, once, at the line of the method name
-   (docs, Example 3) and the column where the call expression starts; not in test code while
-   allow_in_tests *)
-Definition spec_unwrap (o : options) (c : ctx) (k : kind) (cs : list node) : list rep :=
+   (docs, Example 3) and the column where the call expression starts, quoting that line; not in test
+   code while allow_in_tests *)
+Definition spec_unwrap (ls : srclines) (o : options) (c : ctx) (k : kind) (cs : list node) : list rep :=
   match k with
   | KMethod sl sc ml name =>
     if in_test c && opt o "allow_in_tests" true then []
-    else if String.eqb name "unwrap" then [("unwrap-abuse.unwrap-call", S ml, sc)]
-    else if String.eqb name "expect" && negb (opt o "allow_expect" true) then [("unwrap-abuse.expect-call", S ml, sc)]
+    else if String.eqb name "unwrap"
+         then [("unwrap-abuse.unwrap-call", S ml, sc, (".unwrap() call may panic at runtime: " ++ quoted ls ml)%string)]
+    else if String.eqb name "expect" && negb (opt o "allow_expect" true)
+         then [("unwrap-abuse.expect-call", S ml, sc, (".expect() call may panic at runtime: " ++ quoted ls ml)%string)]
     else []
   | _ => []
   end.
@@ -85,7 +98,7 @@ Definition is_clone_call (n : node) : bool :=
 
 (* a .clone() call is reported once, under the first of the documented patterns (chain, loop,
    unnecessary) that applies and whose detect_* option is on *)
-Definition spec_clone (o : options) (c : ctx) (k : kind) (cs : list node) : list rep :=
+Definition spec_clone (ls : srclines) (o : options) (c : ctx) (k : kind) (cs : list node) : list rep :=
   match k with
   | KMethod sl sc ml name =>
     if String.eqb name "clone" then
@@ -95,9 +108,14 @@ Definition spec_clone (o : options) (c : ctx) (k : kind) (cs : list node) : list
                          | Some l, N (KId y) _ :: _ => negb (smem y l)
                          | _, _ => false
                          end in
-      if chain && opt o "detect_clone_chain" true then [("clone-abuse.clone-chain", S ml, sc)]
-      else if in_loop c && opt o "detect_clone_in_loop" true then [("clone-abuse.clone-in-loop", S ml, sc)]
-      else if unnecessary && opt o "detect_unnecessary_clone" true then [("clone-abuse.unnecessary-clone", S ml, sc)]
+      if chain && opt o "detect_clone_chain" true
+      then [("clone-abuse.clone-chain", S ml, sc, ("Chained .clone().clone() is redundant: " ++ quoted ls ml)%string)]
+      else if in_loop c && opt o "detect_clone_in_loop" true
+      then [("clone-abuse.clone-in-loop", S ml, sc,
+             (".clone() called inside a loop body may cause performance issues: " ++ quoted ls ml)%string)]
+      else if unnecessary && opt o "detect_unnecessary_clone" true
+      then [("clone-abuse.unnecessary-clone", S ml, sc,
+             (".clone() may be unnecessary when the original is not used afterward: " ++ quoted ls ml)%string)]
       else []
     else []
   | _ => []
@@ -124,12 +142,18 @@ Definition blocking_switch (class : string) : string :=
   if String.eqb class "fs-in-async" then "detect_fs_in_async"
   else if String.eqb class "sleep-in-async" then "detect_sleep_in_async" else "detect_net_in_async".
 
-Definition spec_blocking (o : options) (c : ctx) (k : kind) (cs : list node) : list rep :=
+(* "Blocking std::fs operation inside async function: fs::read_to_string" (docs, every example) *)
+Definition blocking_message (class : string) (path : list string) : string :=
+  ((if String.eqb class "fs-in-async" then "Blocking std::fs operation inside async function: "
+    else if String.eqb class "sleep-in-async" then "Blocking std::thread::sleep inside async function: "
+    else "Blocking std::net operation inside async function: ") ++ String.concat "::" path)%string.
+
+Definition spec_blocking (ls : srclines) (o : options) (c : ctx) (k : kind) (cs : list node) : list rep :=
   match k with
   | KCall sl sc path =>
     if in_async c && negb (in_wrap c) && negb (in_test c && opt o "allow_in_tests" true) then
       match classify_path spec_blocking_classes path with
-      | Some class => if opt o (blocking_switch class) true then [(blocking_rule class, S sl, sc)] else []
+      | Some class => if opt o (blocking_switch class) true then [(blocking_rule class, S sl, sc, blocking_message class path)] else []
       | None => []
       end
     else []
@@ -137,26 +161,24 @@ Definition spec_blocking (o : options) (c : ctx) (k : kind) (cs : list node) : l
   end.
 
 (* ------------------------------------------------------------------ the three commands *)
-Definition spec_unwrap_report (c : config) (file : list node) : list rep :=
-  walk_file spec_push (spec_unwrap (c_unwrap c)) ctx0 file.
-Definition spec_clone_report (c : config) (file : list node) : list rep :=
-  walk_file spec_push (spec_clone (c_clone c)) ctx0 file.
-Definition spec_blocking_report (c : config) (file : list node) : list rep :=
-  walk_file spec_push (spec_blocking (c_blocking c)) ctx0 file.
+Definition spec_unwrap_report (ls : srclines) (c : config) (file : list node) : list rep :=
+  walk_file spec_push (spec_unwrap ls (c_unwrap c)) ctx0 file.
+Definition spec_clone_report (ls : srclines) (c : config) (file : list node) : list rep :=
+  walk_file spec_push (spec_clone ls (c_clone c)) ctx0 file.
+Definition spec_blocking_report (ls : srclines) (c : config) (file : list node) : list rep :=
+  walk_file spec_push (spec_blocking ls (c_blocking c)) ctx0 file.
 
-Definition spec_report (c : config) (file : list node) : list rep :=
-  spec_unwrap_report c file ++ spec_clone_report c file ++ spec_blocking_report c file.
+Definition spec_report (ls : srclines) (c : config) (file : list node) : list rep :=
+  spec_unwrap_report ls c file ++ spec_clone_report ls c file ++ spec_blocking_report ls c file.
 
 (* ------------------------------------------------------------------ domain of the generated inputs *)
-(* where the finite attribute catalogue and the notion of wrapper are meaningful: attribute texts are
-   catalogued, test-function attributes sit on functions and cfg attributes that imply `test` on
-   modules, and no *method* is called spawn_blocking & co. (whether rt.spawn_blocking(|| ..) is a
-   wrapper in the sense of the property is left open) *)
+(* where the finite attribute catalogue is meaningful: attribute texts are catalogued, and attributes that mark a
+   test function (#[test] ...) sit on functions only *)
 Definition sib_ok (on_fn : bool) (s : sib) : bool :=
   match s with
   | SComment => true
   | SAttr t => match assoc t attr_catalogue with
-               | Some (tf, ct) => if on_fn then negb ct else negb tf
+               | Some (tf, ct) => on_fn || negb tf
                | None => false
                end
   end.
@@ -166,7 +188,6 @@ Fixpoint node_domain (n : node) : bool :=
     match k with
     | KMod pre => forallb (sib_ok false) pre
     | KFn pre _ _ => forallb (sib_ok true) pre
-    | KMethod _ _ _ name => negb (smem name wrapper_names)
     | _ => true
     end && forallb node_domain cs
   end.
